@@ -624,16 +624,15 @@ func c13R3(r *Report) {
 	r.Fn(wt)
 	raw := fieldLoadOf("BTorrent", "Info")
 	// hash over the raw field, same value handed to New together with the hash
-	var sum *ssa.Call
-	allInstrs(rt, func(in ssa.Instruction) {
-		if c, ok := in.(*ssa.Call); ok && isStdCall(c, "crypto/sha1", "", "Sum") {
-			sum = c
-		}
-	})
+	var sum ssa.Instruction
+	var sumArg ssa.Value
+	if sites, ops := digestSites(rt); len(sites) > 0 {
+		sum, sumArg = sites[len(sites)-1], ops[len(ops)-1]
+	}
 	if sum == nil {
 		r.Fail("R3", "ReadTorrent/sha1", rt.Pos(), "ReadTorrent no longer hashes the info dictionary")
 	} else {
-		arg := sum.Call.Args[0]
+		arg := sumArg
 		isRaw := func(v ssa.Value) bool {
 			v = strip(v)
 			if ld, ok := v.(*ssa.UnOp); ok && ld.Op == token.MUL {
@@ -648,16 +647,9 @@ func c13R3(r *Report) {
 				continue
 			}
 			a := ci.Common().Args // proxy, hsh, dn, info, cdate, announce, webseeds
-			hashFromSum := false
-			if sl, ok := strip(a[1]).(*ssa.Slice); ok {
-				if al, ok := sl.X.(*ssa.Alloc); ok {
-					for _, ref := range *al.Referrers() {
-						if st, ok := ref.(*ssa.Store); ok && st.Val == ssa.Value(sum) {
-							hashFromSum = true
-						}
-					}
-				}
-			}
+			// the hash handed to New is the digest computed above (directly, or by the same helper call)
+			_, site := sha1Operand(a[1], 0)
+			hashFromSum := site != nil && site == sum
 			okNew = hashFromSum && isRaw(a[3])
 		}
 		r.Check(okNew, "R3", "ReadTorrent/New(hash,raw-info)", rt.Pos(), "the torrent is created with that hash and the same raw bytes", "tor.New is not given the computed hash together with the raw info bytes")
